@@ -1,7 +1,7 @@
 """C06 — operation alphabet and script builder for inline-cache histories.
 
 A *history* is a tuple of operation names.  It is compiled to ONE JavaScript block: a fresh universe
-(receiver `o`, prototypes `p`, `q`, home object `H` with [[Prototype]] p, counter `n`), textually fresh copies of the
+(receiver `o`, prototypes `p`, `q`, counter `n`; home object `H` with [[Prototype]] p when a super site is used), textually fresh copies of the
 access-site functions the history uses (every function literal is its own CodeBlock and owns its inline caches, so a
 textually fresh literal is a fresh set of caches; a factory closure would NOT be), the operations in order, and a
 structural dump.  Several blocks can be concatenated into one script (one context): the blocks share nothing but the
@@ -52,7 +52,7 @@ SITE_DEFS = {
     "slen": "function slen(x,v){x.length=v}",
     "tg": "function tg(x){var s=0;for(var i=0;i<3;i++){var v=x.a;s=s+(typeof v===\"number\"?v:100)}return s}",
 }
-# H (super sites) is always part of the universe: super.a looks the property up on H.[[Prototype]] = p with receiver `this`.
+# H (super sites): super.a looks the property up on H.[[Prototype]] = p with Receiver `this`; defined only in histories that use it.
 
 
 def _site(expr):
@@ -166,15 +166,18 @@ CORE = ["get_o", "get_p", "getb_o", "set_o", "set_p", "sup_o", "sset_p", "gr",
 CORE_S = ["get_o", "getb_o", "set_o", "get_p", "gr",
           "o.a=", "p.a=", "p.b=", "del_p.a", "g_p", "proto_o=q", "o=U(p)", "G.a=", "OP.a="]
 # depth 5 of thorough
-CORE_M = CORE_S + ["sset_p", "s_p", "f_p", "del_o.a"]
+CORE_M = CORE_S + ["sset_p", "s_p", "f_p"]
 # operations on the global object / Object.prototype only (unique shapes)
 GLOBAL = ["get_G", "set_G", "gr", "gw", "G.a=", "del_G.a", "g_G", "s_G", "ro_G", "OP.a=", "del_OP.a"]
 # the operations outside MID plus the sites they interact with
 ARRAY_ONLY = ["slen1_o", "slenN_o", "o=[3]"]
 SPECIAL = [x for x in FULL if x not in MID and x not in ARRAY_ONLY] + ["get_o", "set_o", "get_p", "p.a=", "del_p.a", "g_p"]
+# depth 4 of thorough: without the two self-deleting getters (every history that reaches them with `tg` diverges, half of them by a
+# panic that costs a worker process; they are covered up to depth 3 by FULL/SPECIAL)
+SPECIAL4 = [x for x in SPECIAL if x not in ("gd_p", "gd_o")]
 # arrays: `length` is an exotic property (ArraySetLength) reached through the ordinary cached store
 ARRAY = ["o=[3]", "o=[]", "o=[](p)", "slen1_o", "slenN_o", "len_o", "get_o", "set_o", "o.a=", "p.length=", "proto_o=p"]
-for _a in (DESIGN24, MID, CORE, CORE_S, CORE_M, GLOBAL, SPECIAL, ARRAY):
+for _a in (DESIGN24, MID, CORE, CORE_S, CORE_M, GLOBAL, SPECIAL, SPECIAL4, ARRAY):
     for _x in _a:
         assert _x in OPS, _x
 
